@@ -34,6 +34,12 @@ CLAIMED = {
   level=dict(category="exploration", design_ref="DESIGN.md §4.3",
     text="Seeded search over generated programs (biased to guards over flags, multiply-assigned variables, _old copies, saturating counters, value sets outgrowing the typer's caps) x type_fp_iterations swarm x resolution schedules. The real parser, normaliser and FiniteFixedPointTyper produce the IR and the types; the IR is executed for 3-12 iterations by Assignment.evaluate / Condition.evaluate under the seam and `value in inferred type` is checked after every single assignment, including all iterations after the (collapsed) loop guard is false. A violation is reported only when an independent exact-rational evaluator of the same IR reaches the same value. Known finding F3 (alias default after guard exit) is matched by signature and printed as KNOWN-FINDING. Sampling, not enumeration."),
   note="Trusted: sim/c05.py ExactIR (reads IR object fields, exact rationals), sim/refinterp.py for the source-level guard, symengine substitution as arithmetic library. User-declared types are taken as given. The IR is given the sequential guarded-assignment semantics its printed form denotes."),
+"C20": dict(
+  engine="session-simulator",
+  technique="deterministic simulation: seeded histories of interleaved analysis sessions (library steps, Action objects, the real polar.main) in one interpreter with injected perturbations of process-global state and a per-world PYTHONHASHSEED; history checked op by op against the same analysis alone in a pristine interpreter",
+  level=dict(category="exploration", design_ref="DESIGN.md §3.1-3.3",
+    text="Seeded search over histories: 2-7 sessions over the repo's own benchmark corpus and generated programs (incl. variables named like generated-name prefixes), steps interleaved by a seeded scheduler, perturbations at step boundaries (forward jumps of the unique-name counter, cache flushes / tiny cache sizes, gc, RNG churn, settings left behind by other users, natural errors, abandoned and repeated analyses, permuted goals), each world under its own hash seed. Oracle: every op's canonical result (closed-form values at n=0..7,12 at two generic parameter points, is_exact, inferred types as value sets, invariant ideals, refusal types) equals that of the same analysis run alone in a freshly forked pristine interpreter under PYTHONHASHSEED=0. Sampling, not enumeration; a defect identical in every history is invisible by construction."),
+  note="Trusted: sim/canon.py (value comparison), the pristine-template fork (parent never analyses anything), Polar itself as its own reference. A session's option vector is re-applied before each of its steps. Step wall-clock timeouts are inconclusive."),
 }
 checks = []
 for pid, c in sorted(CLAIMED.items()):
@@ -62,11 +68,13 @@ m = {
  "engines": [
    {"name": "scripted-rng-simulator", "path": "sim/rngseam.py sim/laws.py sim/sched.py sim/refinterp.py sim/c12.py", "serves_properties": ["C12","C05"],
     "kind_free_text": "deterministic simulation of Polar's own randomness: patched random/scipy entry points, seeded scheduler of resolutions, reference interpreter as oracle"},
+   {"name": "session-simulator", "path": "sim/sessions.py sim/world.py sim/seams.py sim/canon.py sim/refserver.py sim/check_c20.py", "serves_properties": ["C20","C17"],
+    "kind_free_text": "deterministic simulation of one interpreter hosting many analyses: seeded scheduler over API steps, seams over settings / name counter / lru_caches / gc / RNG / hash seed, pristine forked reference worlds"},
    {"name": "orchestrator", "path": "checks/run.py sim/orch.py sim/worker.py", "serves_properties": ["C05","C12","C17","C20"],
     "kind_free_text": "derives run seeds from VERIF_SEED, one fresh interpreter per batch/world with chosen PYTHONHASHSEED, shrinks and replays violations, writes evidence"},
  ],
  "checks": checks,
- "notes": "Technique family: deterministic simulation with fault injection. Fix commits in /repo: 7394bc5 (TruncNormal sampler). See DESIGN.md and known_findings.json.",
+ "notes": "Technique family: deterministic simulation with fault injection. Fix commits in /repo: 7394bc5 (F2 TruncNormal sampler), 7b3b763 (F1 shared cli goals), f63cc8c (F5 exact_func_moments class flag), d37bec9 (F6 alias/unique name collision). Open known finding: F3 (C05). See DESIGN.md and known_findings.json.",
  "not_applicable": [{"property_id": k, "reason": v} for k, v in sorted(na.items())],
 }
 json.dump(m, open(os.path.join(V, "MANIFEST.json"), "w"), indent=1)
